@@ -1384,6 +1384,101 @@ fn cpreplay_scenario(events: &[serde_json::Value], sc: usize, out: Box<dyn std::
     (out, lines, panics)
 }
 
+/// Specification -> implementation for the fetch bookkeeping (C16): the events of one behaviour of MC_FetchR on the
+/// world of `replay_world` with two peers that serve the old branch (block ids 1..7).  Header 3 / transaction of
+/// block 4 are on the served chain; header 8 / the transaction of block 8 are on the other branch (reported missing).
+fn fetchreplay_scenario(events: &[serde_json::Value], sc: usize, out: Box<dyn std::io::Write>, skipped: &mut u64) -> (Box<dyn std::io::Write>, u64, Vec<String>) {
+    let mut rng = StdRng::seed_from_u64(78);
+    let (chain, old, _newb) = replay_world(&mut rng);
+    let interval = 100u64;
+    let cfg = Config { last_n: 5, max_outbound: 2, interval, blocks_in_transit: 8, ..Default::default() };
+    let mut sim: Sim = new_sim(chain, cfg, 2, out, &format!("fetchreplay-{}", sc), vec!["peersync", "filter"]);
+    let mut env = Env::new(&sim, &[(old[0], old[0]), (old[0], old[0])]);
+    sim.reset(json!({"mode": "fetchreplay"}));
+    // model transaction id -> world transaction (the non-cellbase transaction of its block)
+    let tx_of = |sim: &Sim, t: u64| -> usize {
+        let b = match t { 1 => 2, 2 => 3, 3 => 5, 4 => 7, _ => 8 };
+        sim.chain.blocks[b].tx_ids[1]
+    };
+    let proven = |sim: &Sim, env: &Env, i: usize| sim.client().peers.get_state(&env.peers[i].idx).map(|st| st.get_prove_state().is_some()).unwrap_or(false);
+    let prove = |sim: &mut Sim, env: &mut Env, i: usize| {
+        if !env.peers[i].connected {
+            env.connect(sim, i);
+        }
+        env.send_last_state(sim, i);
+        env.refresh(sim);
+        while env.peers[i].connected && env.answer_proof(sim, i) {}
+    };
+    for i in 0..2 {
+        prove(&mut sim, &mut env, i);
+    }
+    let mut grown = 0usize;
+    for e in events {
+        if !sim.panics.is_empty() {
+            break;
+        }
+        let i = if e["p"].as_str() == Some("p2") { 1usize } else { 0 };
+        let n = e["n"].as_u64().unwrap_or(0);
+        match e["k"].as_str().unwrap_or("") {
+            "CallH" => env.rpc_fetch_header(&mut sim, n as usize - 1),
+            "CallT" => {
+                let t = tx_of(&sim, n);
+                env.rpc_fetch_tx(&mut sim, t)
+            }
+            "Tick" => env.fetch_tick(&mut sim),
+            "AnswerH" => {
+                if !(env.peers[i].connected && env.answer_blocks_proof(&mut sim, i)) {
+                    *skipped += 1
+                }
+            }
+            "AnswerT" => {
+                if !(env.peers[i].connected && env.answer_txs_proof(&mut sim, i)) {
+                    *skipped += 1
+                }
+            }
+            "RejectH" => {
+                if !(env.peers[i].connected && env.mutate_blocks_proof(&mut sim, i, &mut rng)) {
+                    *skipped += 1
+                }
+            }
+            "RejectT" => {
+                if !(env.peers[i].connected && env.mutate_txs_proof(&mut sim, i, &mut rng)) {
+                    *skipped += 1
+                }
+            }
+            "Disc" => {
+                if env.peers[i].connected { env.disconnect(&mut sim, i) } else { *skipped += 1 }
+            }
+            "Reconn" => {
+                if env.peers[i].connected {
+                    *skipped += 1;
+                    continue;
+                }
+                prove(&mut sim, &mut env, i);
+                if env.peers[i].connected && !proven(&sim, &env, i) && grown + 1 < old.len() {
+                    // nobody holds a proof of the stored tip any more: the peers have one more block by now
+                    grown += 1;
+                    for j in 0..2 {
+                        env.peers[j].server.tip = old[grown];
+                        env.peers[j].leaf = old[grown];
+                    }
+                    for j in 0..2 {
+                        if env.peers[j].connected {
+                            prove(&mut sim, &mut env, j);
+                        }
+                    }
+                }
+            }
+            _ => *skipped += 1,
+        }
+        env.enforce_bans(&mut sim);
+    }
+    let lines = sim.lines;
+    let panics = sim.panics.clone();
+    let out = std::mem::replace(&mut sim.out, Box::new(std::io::sink()));
+    (out, lines, panics)
+}
+
 fn run_replay(kv: &HashMap<String, String>) -> i32 {
     let path = arg_str(kv, "out", "/dev/stdout");
     let file = arg_str(kv, "file", "");
@@ -1406,6 +1501,8 @@ fn run_replay(kv: &HashMap<String, String>) -> i32 {
         };
         let (o, l, p) = if arg_str(kv, "mode", "replay") == "cpreplay" {
             cpreplay_scenario(&events, idx, out, &mut skipped)
+        } else if arg_str(kv, "mode", "replay") == "fetchreplay" {
+            fetchreplay_scenario(&events, idx, out, &mut skipped)
         } else {
             replay_scenario(&events, idx, out, &mut skipped)
         };
@@ -1421,7 +1518,7 @@ fn run_replay(kv: &HashMap<String, String>) -> i32 {
 }
 
 pub fn run(kv: &HashMap<String, String>) -> i32 {
-    if arg_str(kv, "mode", "sync") == "replay" || arg_str(kv, "mode", "sync") == "cpreplay" {
+    if ["replay", "cpreplay", "fetchreplay"].contains(&arg_str(kv, "mode", "sync").as_str()) {
         return run_replay(kv);
     }
     if arg_str(kv, "mode", "sync") == "crash" {
